@@ -14,6 +14,9 @@ type Intrinsic func(st *State, f *Frame, call *ssa.Call, args []Value)
 var intrinsics map[string]Intrinsic
 var harnessIntrinsics map[string]Intrinsic
 
+// TierN is 0 for quick, 1 for thorough; harnesses read it through vTier().
+var TierN int
+
 func ret(st *State, f *Frame, v Value) { st.deliver(f, v) }
 
 func rtypeIface(t types.Type) Iface { return Iface{T: rtypeMarker, V: RType{t}} }
@@ -429,6 +432,7 @@ func init() {
 			st.choices = &choiceList{string(a[0].(Str)), st.choices}
 			ret(st, f, nil)
 		},
+		"vTier": func(st *State, f *Frame, c *ssa.Call, a []Value) { ret(st, f, C(64, uint64(TierN))) },
 		"vEngine": func(st *State, f *Frame, c *ssa.Call, a []Value) { ret(st, f, B(true)) },
 		"vFootprintStart": func(st *State, f *Frame, c *ssa.Call, a []Value) {
 			st.fp = &Footprint{Reads: map[int]bool{}, Writes: map[int]bool{}}
